@@ -84,6 +84,10 @@ pub struct Resolved {
     /// lifecycle action instead of SQL
     pub lifecycle: Option<Lifecycle>,
     pub rows_touched: usize,
+    /// INSERT only: the rows as written in the statement (all columns; NULL where the
+    /// statement passes NULL or omits the column), and whether every column was listed
+    pub input_rows: Vec<Row>,
+    pub input_full: bool,
 }
 
 #[derive(Debug, Clone, Copy, PartialEq)]
@@ -451,6 +455,8 @@ impl Model {
             txn: TxnEffect::None,
             lifecycle: None,
             rows_touched: 0,
+            input_rows: vec![],
+            input_full: false,
         };
         match op {
             Op::Insert { t, with_cols, skip, rows, returning } => {
@@ -545,6 +551,16 @@ impl Model {
                         }
                     }
                     rendered_rows.push(format!("({})", rendered.join(", ")));
+                    if listed.len() == n {
+                        // input row = what the statement passes (NULL for a generated id)
+                        let mut inp = row.clone();
+                        for (ci, c) in tab.cols.iter().enumerate() {
+                            if c.auto_inc && rendered[ci] == "NULL" {
+                                inp[ci] = Val::Null;
+                            }
+                        }
+                        r.input_rows.push(inp);
+                    }
                     new_rows.push(row);
                 }
                 let col_list = if use_list {
@@ -552,6 +568,7 @@ impl Model {
                 } else {
                     String::new()
                 };
+                r.input_full = listed.len() == n;
                 r.sql = format!("INSERT INTO {}{} VALUES {}{}", tab.name, col_list, rendered_rows.join(", "), if *returning { " RETURNING *" } else { "" });
                 r.table = Some(tab.name.clone());
                 if new_rows.len() > 1 {
